@@ -57,6 +57,7 @@ type gen struct {
 	entropy int64
 	accepted [][2]int // (block, tx) of transactions the model accepted (candidates for replay)
 	prop     string   // the property the run is generated for
+	pastQueries []ReadOnly // store queries with an explicit height issued so far (asked again later)
 	aclTaker int      // while a gov/acl value is being built: the account it should name as the list's owner (-1: none)
 	refused  [][2]int // ... and of those it saw refused, before or after the ante handler passed (replayed too)
 	pendingIndex []string
@@ -966,7 +967,10 @@ func (g *gen) genTx(bi int) {
 		s.Amount = amt.String()
 	case "change_param":
 		k := AllParamKeys[r.Intn(len(AllParamKeys))]
-		if k == "pos/StakeDenom" || k == "pos/SignedBlocksWindow" || k == "auth/TxSigLimit" {
+		if k == "pos/StakeDenom" && g.prop == "C11" && r.Chance(0.5) {
+			// only for the no-trace property: after such a change stakes move a denomination of their own, unstaking
+			// validators cannot be paid back (the chain halts at the first maturity) and the model stops following
+		} else if k == "pos/StakeDenom" || k == "pos/SignedBlocksWindow" || k == "auth/TxSigLimit" {
 			k = "pos/MaxValidators"
 		}
 		s.ParamKey = k
@@ -1067,9 +1071,15 @@ func (g *gen) genTx(bi int) {
 		} else {
 			s.Acct = g.pickAcct()
 		}
-		// never a live upgrade: the height is far beyond any run
+		// mostly not a live upgrade: the height is far beyond any run
 		s.UpgradeHeight = 1000000 + int64(r.Intn(1000))
 		s.UpgradeVersion = []string{"0.0.1", "0.0.0", "9.9.9"}[r.Intn(3)]
+		if r.Chance(0.35) {
+			// a plan the chain reaches during the run, for a version the node already runs (a newer one makes the
+			// real code end the process: gov's BeginBlock calls os.Exit)
+			s.UpgradeHeight = int64(bi) + 1 + int64(r.Range(1, 6))
+			s.UpgradeVersion = []string{"0.0.1", "0.0.0"}[r.Intn(2)]
+		}
 	case "award":
 		s.Acct = g.pickAcct()
 		s.To = g.pickAcct()
@@ -1208,11 +1218,14 @@ func (g *gen) genTx(bi int) {
 			s.SignBy = g.pickAcct()
 		}
 	}
+	if s.Kind == "upgrade" && s.UpgradeHeight < 1000000 && s.Mut == "strbyte" {
+		s.Mut = "msg" // a version string the node does not run must never become a reachable plan (os.Exit)
+	}
 	if r.Chance(0.03) {
 		s.Memo = string(make([]byte, 257))
 	} else if r.Chance(0.1) {
 		s.Memo = "m"
-	} else if r.Chance(0.06) {
+	} else if r.Chance(0.06) && !(s.Kind == "upgrade" && s.UpgradeHeight < 1000000) {
 		// notes that are not text: bytes that are not valid UTF-8, a NUL, an escape-worthy character
 		s.MemoHex = []string{"706179ff", "fffe", "6100", "22", "c3", "e282"}[r.Intn(6)]
 		if s.Mut == "" && r.Chance(0.5) {
@@ -1249,6 +1262,9 @@ func (g *gen) paramValue(k string) string {
 	case "pos/ProposerRewardPercentage":
 		return ParamJSON(int8(r.Range(0, 100)))
 	case "pos/StakeDenom":
+		if g.prop == "C11" {
+			return ParamJSON([]string{ThirdDenom, ThirdDenom, DustDenom, sdk.DefaultStakeDenom}[r.Intn(4)])
+		}
 		return ParamJSON(sdk.DefaultStakeDenom)
 	case "pos/MinSignedPerWindow", "pos/SlashFractionDoubleSign", "pos/SlashFractionDowntime":
 		d, _ := sdk.NewDecFromStr([]string{"0.5", "0.1", "0", "1", "0.05", "0.25", "0.333333333333333333", "0.0123456789", "0.0000005", "0.999999999999999999"}[r.Intn(10)])
@@ -1363,7 +1379,20 @@ func (g *gen) genReadOnly(bi, pos int, h int64) ReadOnly {
 		if r.Chance(0.15) {
 			sub = "/subspace"
 		}
-		return ReadOnly{Pos: pos, Kind: "query_store", Path: "/store/" + store + sub, Data: hex.EncodeToString(key), Height: height, Prove: r.Chance(0.5)}
+		if len(g.pastQueries) > 0 && r.Chance(0.3) {
+			// the very same question again, blocks later (the height it names may not have existed the first time)
+			q := g.pastQueries[r.Intn(len(g.pastQueries))]
+			q.Pos = pos
+			return q
+		}
+		if height > 0 && r.Chance(0.25) {
+			height = h + int64(r.Range(0, 3)) // the block in progress, or one that is not there yet
+		}
+		q := ReadOnly{Pos: pos, Kind: "query_store", Path: "/store/" + store + sub, Data: hex.EncodeToString(key), Height: height, Prove: r.Chance(0.5)}
+		if height > 0 {
+			g.pastQueries = append(g.pastQueries, q)
+		}
+		return q
 	case 3:
 		height := int64(0)
 		if r.Chance(0.5) {
